@@ -41,9 +41,12 @@ ASSUMPTIONS = ['the labelling function is deterministic and is evaluated by the 
                'tables have at least one id on both axes (collapse of a table with an empty axis is known finding F25)']
 
 from . import regen_part as _regen_part
-# py2v_part: regenerate coq/Gen/PartitionGen.v (Table.partition) from the source first
-regenerate = _regen_part.hook(TRUSTED, ['partition'], 'coq/Model/Partition.v (partition_t)',
-                              'coq/Proofs/GenBridgePartitionProofs.v')
+# py2v_part: regenerate coq/Gen/PartitionGen.v (Table.partition) and coq/Gen/CollapseGen.v (Table.collapse,
+# one-to-one) from the source first
+regenerate = _regen_part.hook(TRUSTED, ['partition', 'collapse'],
+                              'coq/Model/Partition.v (partition_t; collapse_t, OneToOne)',
+                              'coq/Proofs/GenBridgePartitionProofs.v, coq/Proofs/GenBridgeCollapseProofs.v',
+                              vocab='coq/Gen/PartPrelude.v, coq/Gen/CollapsePrelude.v')
 
 AXES = ['observation', 'sample']
 FALSY = [0, '', [], None, False, 'x', 0.0, 1]
